@@ -109,6 +109,8 @@ func panicClass(v string) string {
 		return "nil-map-write"
 	case strings.Contains(v, "illegal base64"):
 		return "illegal-base64"
+	case strings.Contains(v, "json: cannot unmarshal"):
+		return "json-cannot-unmarshal"
 	case strings.Contains(v, "does not exist"):
 		return "field-does-not-exist"
 	case strings.Contains(v, "got value of type"):
